@@ -30,7 +30,7 @@ class C18(core.Check):
                   "the first non-persistent one), one_response_parses_back and responses_parse_back_partial (a response-framing parser defined in Lean — head lines, "
                   "Content-Length or chunked body — recovers, in request order and with nothing left over, exactly status line, header list and body of every response "
                   "of well-formed app output, under the guard that each response is delimited), self_delimiting_partial (every response is delimited unless the request "
-                  "is HTTP/1.0 and the app declares no Content-Length = F29, proved to fail: f29_not_delimited, recorded as C18-K1). "
+                  "is HTTP/1.0 and the app declares no Content-Length = F29, proved to fail on a witness (f29_not_delimited) and for EVERY such response (undelimited_never_parses); recorded as C18-K1). "
                   "The model is tied to serving.py by a seeded differential run (raw bytes, closed flag, app call count) under random fragmentation of the request "
                   "stream, service-cycle gaps and send quotas; default Server header and version string are re-extracted from the code on every run.")
     level_note = ("Trusted: Lean kernel + propext/Classical.choice/Quot.sound; the hand-written model's faithfulness is carried by the sampled correspondence; "
